@@ -150,19 +150,27 @@ def graph_source(defs):
     return lines, ranges
 
 
-def all_graphs():
+def shapes_over(pool):
+    sh = [(x, "*", x) for x in pool]
+    sh += [(x, "*", y) for x, y in itertools.combinations(pool, 2)]
+    sh += [(x, "/", y) for x, y in itertools.permutations(pool, 2)]
+    sh += [(AMT, "/", x) for x in pool]
+    return sh
+
+
+def all_graphs(tier="quick"):
     shapes1 = [("Pq", "*", "Pq"), ("Pq", "*", "Qq"), ("Pq", "/", "Qq"), ("Qq", "/", "Pq"), (AMT, "/", "Pq")]
     graphs = []
     for s1 in shapes1:
         d1 = ("Da",) + s1
         graphs.append([d1])
-        pool = ["Pq", "Qq", "Da"]
-        shapes2 = [(x, "*", x) for x in pool]
-        shapes2 += [(x, "*", y) for x, y in itertools.combinations(pool, 2)]
-        shapes2 += [(x, "/", y) for x, y in itertools.permutations(pool, 2)]
-        shapes2 += [(AMT, "/", x) for x in pool]
-        for s2 in shapes2:
-            graphs.append([d1, ("Db",) + s2])
+        for s2 in shapes_over(["Pq", "Qq", "Da"]):
+            g2 = [d1, ("Db",) + s2]
+            graphs.append(g2)
+            # thorough: every conflict-free two-derivation graph is extended by every third derivation
+            if tier == "thorough" and not graph_conflict(g2):
+                for s3 in shapes_over(["Pq", "Qq", "Da", "Db"]):
+                    graphs.append(g2 + [("Dc",) + s3])
     return graphs
 
 
@@ -262,7 +270,7 @@ def run(prop, tier, seed, t0):
             judge_batch("cross-crate", [], cprogs, cpaths, backend, tier, st, violations)
             all_progs += [("astro", [], aprogs), ("cross-crate", [], cprogs)]
         # derivation graphs
-        graphs = all_graphs()
+        graphs = all_graphs(tier)
         results = e2.parallel(run_graph, [(gi, g, backend, tier) for gi, g in enumerate(graphs)])
         for gst, gviol in results:
             for k in ("programs", "expected_accept", "expected_reject"):
@@ -321,7 +329,8 @@ def run(prop, tier, seed, t0):
                 "{+,-,*,/,==,<} (both back-ends); the same for the 4 astronomical types and AmountT (150) and all 672 "
                 "cross-crate pairs (f64); and every derivation graph over two base types and AmountT with one or two "
                 "derived types (first in {P*P, P*Q, P/Q, Q/P, AmountT/P}, second in all 15 shapes over {P, Q, D1}: 80 "
-                "graphs), each with its full 5 x 5 x 6 program set, or - if two derivations generate the same operator - "
+                "graphs; thorough: every conflict-free one of them extended by a third derivation in all 26 shapes over "
+                "{P, Q, D1, D2}), each with its full |types|^2 x 6 program set, or - if two derivations generate the same operator - "
                 "rejected as a whole with E0119 at a derived definition. Expected verdict and result type come from the "
                 "model's closure of the declared derivations; verdict per program = presence of an error whose primary "
                 "span (outermost expansion) is on the program's line. thorough: every rejected catalogue/astro/cross "
